@@ -79,8 +79,13 @@ class ClientConnectionJob(object):
     def denyConnection(self, reason):
         log.warning("client connection was denied: " + reason)
         # return failed handshake
-        self.daemon._handshake(self.csock, denied_reason=reason)
-        self.csock.close()
+        try:
+            self.daemon._handshake(self.csock, denied_reason=reason)
+        except Exception as x:
+            # (this runs in the accept loop: a client that is gone already must not take the server down)
+            log.warning("error while denying the connection: %s", x)
+        finally:
+            self.csock.close()
 
 
 class Housekeeper(threading.Thread):
